@@ -350,6 +350,17 @@ fn threads_mode(t: usize) {
         .collect();
     let cases = Arc::new(cases);
     let barrier = Arc::new(Barrier::new(t));
+    // the threads do not all use the same settings: thread k converts at scale SCALES[k % 4] (8 = the default, through
+    // `to_svg`); every result is compared with a reference computed afterwards by one thread alone
+    const SCALES: [f32; 4] = [8.0, 2.0, 8.0, 1.5];
+    fn convert(input: &str, scale: f32) -> String {
+        if scale == 8.0 {
+            svgbob::to_svg(input)
+        } else {
+            let st = Settings { scale, ..Settings::default() };
+            svgbob::to_svg_with_settings(input, &st)
+        }
+    }
     let mut handles = vec![];
     for k in 0..t {
         let cases = cases.clone();
@@ -357,11 +368,12 @@ fn threads_mode(t: usize) {
         handles.push(std::thread::spawn(move || {
             barrier.wait();
             let n = cases.len();
+            let scale = SCALES[k % 4];
             let mut out: Vec<Option<String>> = vec![None; n];
             for j in 0..n {
                 let i = (j + k) % n;
                 let input = cases[i].1.clone();
-                let r = panic::catch_unwind(move || svgbob::to_svg(&input));
+                let r = panic::catch_unwind(move || convert(&input, scale));
                 out[i] = r.ok();
             }
             out
@@ -370,9 +382,17 @@ fn threads_mode(t: usize) {
     let results: Vec<Vec<Option<String>>> = handles.into_iter().map(|h| h.join().expect("thread")).collect();
     let stdout = io::stdout();
     let mut o = stdout.lock();
-    for (i, (id, _)) in cases.iter().enumerate() {
+    for (i, (id, input)) in cases.iter().enumerate() {
+        let mut same = true;
+        for (k, r) in results.iter().enumerate() {
+            let scale = SCALES[k % 4];
+            let inp = input.clone();
+            let reference = panic::catch_unwind(move || convert(&inp, scale)).ok();
+            if r[i] != reference {
+                same = false;
+            }
+        }
         let first = &results[0][i];
-        let same = results.iter().all(|r| &r[i] == first);
         match (same, first) {
             (true, Some(svg)) => writeln!(o, "{} ok {}", id, hex(svg)).unwrap(),
             (true, None) => writeln!(o, "{} panic -", id).unwrap(),
